@@ -510,8 +510,13 @@ func (b *builder) processFunction(root *functionNode, props *builderProp) (query
 		if len(root.Args) > 1 {
 			return nil, fmt.Errorf("xpath: %s function must have at most one parameter", root.FuncName)
 		}
-		if len(root.Args) == 1 {
-			argQuery, err := b.processNode(root.Args[0], flagsEnum.None, props)
+		{
+			// The argument defaults to the context node.
+			arg := newAxisNode("self", allNode, "", "", "", nil)
+			if len(root.Args) == 1 {
+				arg = root.Args[0]
+			}
+			argQuery, err := b.processNode(arg, flagsEnum.None, props)
 			if err != nil {
 				return nil, err
 			}
